@@ -7,6 +7,7 @@ import (
 
 	webp "github.com/deepteams/webp"
 	"github.com/deepteams/webp/internal/vsim"
+	"github.com/deepteams/webp/internal/vsim/ssync"
 )
 
 // The storage workload shared by C01 / C02 / C07: a client encodes an image
@@ -22,6 +23,9 @@ type StoreParams struct {
 	RP    ReadPlan   `json:"read_plan"`
 	// Prior: an unrelated earlier transaction in the same world (so pooled coders are reused)
 	Prior *Op `json:"prior,omitempty"`
+	// Second: an unrelated operation executed by a second client task concurrently with
+	// the transaction (pooled objects and buffers cross tasks while Encode is writing)
+	Second *Op `json:"second,omitempty"`
 }
 
 type storeOutcome struct {
@@ -60,12 +64,25 @@ func runStore(p *StoreParams, x *X) *storeOutcome {
 	}
 	o.writer = &SimWriter{Fault: p.WF}
 	var priorIn []byte
-	if p.Prior != nil && p.Prior.Kind != "enc" {
-		priorIn = FileFor(p.Prior.Img, p.Prior.Opt)
+	if p.Prior != nil && needsInput(*p.Prior) {
+		priorIn = InputFor(*p.Prior)
+	}
+	var secondIn []byte
+	if p.Second != nil && needsInput(*p.Second) {
+		secondIn = InputFor(*p.Second)
 	}
 	o.w = x.Explore(p.Sched.Config(), func() {
 		if p.Prior != nil {
 			ExecOp(*p.Prior, priorIn)
+		}
+		var wg ssync.WaitGroup
+		if p.Second != nil {
+			wg.Add(1)
+			vsim.Go(2, func() {
+				defer wg.Done()
+				ExecOp(*p.Second, secondIn)
+			})
+			defer wg.Wait()
 		}
 		o.encErr = webp.Encode(o.writer, img, p.Opt.ToOptions())
 		if o.encErr != nil {
@@ -198,7 +215,31 @@ func (propC01) Gen(seed uint64, tier string, idx int) any {
 		op := GenStillOp(r, 1, 48, false)
 		p.Prior = &op
 	}
+	genSecond(r, p, true)
 	return p
+}
+
+// genSecond: 20 % of transactions run next to a concurrent second client whose
+// operation uses the same codec family (so the same pools).
+func genSecond(r *RNG, p *StoreParams, lossless bool) {
+	if !r.Pct(20) {
+		return
+	}
+	op := GenStillOp(r, 1, 48, false)
+	op.Kind = "enc"
+	if r.Pct(60) {
+		op.Opt.Lossless = p.Opt.Lossless
+		if p.Opt.HasMeta() {
+			op.Opt.ICCLen = 5
+		}
+	}
+	p.Second = &op
+	if p.Sched.Policy == vsim.PolCanonical {
+		p.Sched.Policy = vsim.PolUniform
+	}
+	if p.Sched.PoolHitPct == 0 {
+		p.Sched.PoolHitPct = 90
+	}
 }
 
 func shrinkStore(pp any) []any {
@@ -212,7 +253,10 @@ func shrinkStore(pp any) []any {
 	if p.Prior != nil {
 		add(func(q *StoreParams) { q.Prior = nil })
 	}
-	if p.Sched.Policy != vsim.PolCanonical || p.Sched.PoolHitPct != 0 {
+	if p.Second != nil {
+		add(func(q *StoreParams) { q.Second = nil })
+	}
+	if p.Second == nil && (p.Sched.Policy != vsim.PolCanonical || p.Sched.PoolHitPct != 0) {
 		add(func(q *StoreParams) {
 			q.Sched.Policy = vsim.PolCanonical
 			q.Sched.PoolHitPct, q.Sched.PoolDropPm, q.Sched.PoolGCPm = 0, 0, 0
@@ -360,6 +404,7 @@ func (propC07) Gen(seed uint64, tier string, idx int) any {
 		op := GenStillOp(r, 1, 48, false)
 		p.Prior = &op
 	}
+	genSecond(r, p, false)
 	return p
 }
 
@@ -510,6 +555,7 @@ func (propC02) Gen(seed uint64, tier string, idx int) any {
 	approx := 300
 	p.WF = GenWriteFault(r, 20, approx)
 	p.RP = GenReadPlan(r, 3, approx)
+	genSecond(r, p, p.Opt.Lossless)
 	return p
 }
 
